@@ -28,7 +28,7 @@ def stepContext (op : String) (args : List String) : Option String :=
     let ns ← ns.toInt?
     let over ← parsePairs over
     let c := clientCtx cid opid u ns over
-    pure s!"req={pairsOf c.req} cid={hexOf c.correlationID} timeout={c.timeout} opid={showOpId c}"
+    pure s!"ok req={pairsOf c.req} cid={hexOf c.correlationID} timeout={c.timeout} opid={showOpId c}"
   | "c9srv", [wire, ctr] => do
     let wire ← unhex wire
     let ctr ← ctr.toNat?
@@ -39,7 +39,7 @@ def stepContext (op : String) (args : List String) : Option String :=
   | "c9hdl", [resp, r] => do
     let resp ← parsePairs resp
     let r ← parsePairs r
-    pure (pairsOf ((⟨[], resp⟩ : Ctx).addResponseHeaders r).resp)
+    pure ("ok " ++ pairsOf ((⟨[], resp⟩ : Ctx).addResponseHeaders r).resp)
   | "c9rsp", [wire, resp] => do
     let wire ← unhex wire
     let resp ← parsePairs resp
@@ -56,7 +56,7 @@ def stepContext (op : String) (args : List String) : Option String :=
     | none => pure "bad"
   | "c9tmo", [v] => do
     let c : Ctx ← if v == "none" then some ⟨[], []⟩ else (unhex v).map fun b => ⟨[(timeoutHeader, b)], []⟩
-    pure (toString c.timeout)
+    pure s!"ok {c.timeout}"
   | _, _ => none
 
 end Driver
